@@ -57,3 +57,14 @@ Proof.
   intros E. rewrite E in H2. discriminate.
 Qed.
 Definition qop_canonicalb (a : qop) : bool := forallb (fun tc => canonicalb (fst tc)) a.
+
+(* ---- tolerance versions for float-valued operators: every coefficient of the exact difference
+        has modulus at most eps (eps2 = eps^2) ---- *)
+From Coq Require Import QArith Qcanon.
+Close Scope Qc_scope. Close Scope Q_scope.
+Definition qdiff (a b : qop) : qop := isub pfeqb Cis0 (qnorm a) (qnorm b).
+Definition coeff_le2 (eps2 : Qc) (c : C) : bool :=
+  match Qccompare (Cnorm2 c) eps2 with Gt => false | _ => true end.
+Definition pauli_close (eps2 : Qc) (a b : qop) : bool := forallb (fun tc => coeff_le2 eps2 (snd tc)) (qdiff a b).
+Definition fermi_close (eps2 : Qc) (f g : lop) : bool := pauli_close eps2 (jw0 f) (jw0 g).
+Definition fermi_pauli_close (eps2 : Qc) (f : lop) (q : qop) : bool := pauli_close eps2 (jw0 f) q.
